@@ -2,6 +2,7 @@
 package symex
 
 import (
+	"math/big"
 	"fmt"
 	"go/types"
 	"strings"
@@ -149,7 +150,7 @@ func (ex *Executor) zero(t types.Type) Val {
 	case isNamed(t, "sync", "Map"):
 		return &SyncMapV{}
 	case isNamed(t, "time", "Time"):
-		return smt.IntC(0)
+		return ZeroTime()
 	case isNamed(t, "bytes", "Buffer"):
 		return &BufV{S: smt.StrC("")}
 	case isNamed(t, "reflect", "Value"):
@@ -416,4 +417,11 @@ func showVal(v Val) string {
 		return "map@" + x.Obj.String()
 	}
 	return fmt.Sprintf("%T", v)
+}
+
+// ZeroTime: the zero time.Time (January 1, year 1 UTC) on the executor's time line, which counts nanoseconds since the
+// Unix epoch in unbounded integers: distinct from the epoch itself
+func ZeroTime() *smt.Term {
+	z := new(big.Int).Mul(big.NewInt(-62135596800), big.NewInt(1000000000))
+	return smt.BigC(z)
 }
